@@ -250,3 +250,19 @@ ADD7 = {
 for _k, (_t, _x) in ADD7.items():
     _tech, _text, _note = CLAIMED[_k]
     CLAIMED[_k] = (_tech + _t, _text + _x, _note)
+
+ADD8 = {
+ "C03": ("; nil-ness rule for pointer values converted to interfaces (a nil *Schema must not be put into a Type interface and then compared with nil)",
+         " Also decides that an extension of the schema type is matched against a schema that exists."),
+ "C04": ("; declared-type rule for the substitution arms (the coercer and the enum table come from the declared type itself, never from a type reached by looking through its list wrappers); default-coercion rule of the input-object coercer (a default filled in for an absent field is CoerceIn's result of the field's type)",
+         " Also decides that a symbol or object literal given where a list is declared is not accepted as the element, and that a filled-in default is coerced like a supplied value (map arm; the registered-Go-value arm is a listed finding)."),
+ "C09": ("; the include/skip policy decided by constant propagation over one iteration of the directive loop (twelve rows of directive name x condition value x earlier decision)",
+         ""),
+ "C16": ("; derivation rule for the implied schema: when no schema is declared the schema object is derived from the current root types on every load, not kept from the first",
+         " Also decides that a schema implied by the type names follows later loads."),
+ "C17": ("; root-operation table rule: for a declared schema only the declared operations exist, each looked up under its own operation name; for an implied schema the three default names",
+         ""),
+}
+for _k, (_t, _x) in ADD8.items():
+    _tech, _text, _note = CLAIMED[_k]
+    CLAIMED[_k] = (_tech + _t, _text + _x, _note)
